@@ -197,6 +197,99 @@ theorem grpc_truncated (gunzip) (maxRecv : Nat) (e : Env) (flag : UInt8) (m : By
     · obtain ⟨e2, h2⟩ := readExactly_short e1 m.length (by omega) (by omega)
       rw [h2]; exact ⟨_, e2, rfl⟩
 
+/-- **gRPC truncation law**: complete frames followed by a frame cut short (inside its header or
+its payload) are delivered as exactly the complete messages, in order, followed by an error —
+never a partial or fabricated message, never a clean end. -/
+theorem grpc_sequence_truncated (gunzip) (maxRecv : Nat) (flag : UInt8) (m : Bytes) (k : Nat)
+    (hk1 : 0 < k) (hk2 : k < (frame flag m).length) (hlim : m.length ≤ maxRecv)
+    (h32 : m.length < 4294967296) (ms : List Bytes) :
+    ∀ (e : Env), (∀ m ∈ ms, m.length ≤ maxRecv ∧ m.length < 4294967296) →
+    e.data = (ms.map (frame 0)).flatten ++ (frame flag m).take k →
+    ∃ x, grpcRecvAll gunzip maxRecv (ms.length + 1) e = ms.map .msg ++ [.err x] := by
+  induction ms with
+  | nil =>
+    intro e _ hW
+    obtain ⟨x, e', h⟩ := grpc_truncated gunzip maxRecv e flag m k hk1 hk2 (by simpa using hW) hlim h32
+    exact ⟨x, by simp [grpcRecvAll, h]⟩
+  | cons m0 ms ih =>
+    intro e hall hW
+    have hm := hall m0 (by simp)
+    obtain ⟨e', h, hd⟩ := grpc_frame gunzip maxRecv e 0 m0
+      ((ms.map (frame 0)).flatten ++ (frame flag m).take k) (by decide)
+      (by simpa using hW) hm.1 hm.2
+    obtain ⟨x, hx⟩ := ih e' (fun y hy => hall y (by simp [hy])) hd
+    exact ⟨x, by simp only [List.length_cons, grpcRecvAll, h, hx, List.map_cons, List.cons_append]⟩
+
+/-- what `SendMsg` writes for a list of replies (those over the send limit are refused and
+write nothing). -/
+def grpcSendAll (maxSend : Nat) (ms : List Bytes) : Bytes :=
+  (ms.filterMap (grpcSend none maxSend)).flatten
+
+theorem grpcSendAll_within (maxSend : Nat) (ms : List Bytes) (h : ∀ m ∈ ms, m.length ≤ maxSend) :
+    grpcSendAll maxSend ms = (ms.map (frame 0)).flatten := by
+  unfold grpcSendAll
+  congr 1
+  induction ms with
+  | nil => rfl
+  | cons m ms ih =>
+    have hm : ¬ m.length > maxSend := by have := h m (by simp); omega
+    simp only [List.filterMap_cons, grpcSend, hm, if_false, List.map_cons]
+    rw [ih (fun x hx => h x (by simp [hx]))]
+
+/-- **gRPC reply sequence**: a peer reading what `SendMsg` wrote for the handler's replies with
+the same frame reader receives exactly those replies, in order, then the end of the data
+(where the trailers / trailer frame carry the final status). -/
+theorem grpc_reply_sequence (maxSend clientMax : Nat) (ms : List Bytes) (e : Env)
+    (hall : ∀ m ∈ ms, m.length ≤ maxSend ∧ m.length ≤ clientMax ∧ m.length < 4294967296)
+    (hW : e.data = grpcSendAll maxSend ms) :
+    grpcRecvAll none clientMax (ms.length + 1) e = ms.map .msg ++ [.eof] := by
+  rw [grpcSendAll_within maxSend ms (fun m hm => (hall m hm).1)] at hW
+  exact grpc_sequence none clientMax ms e (fun m hm => ⟨(hall m hm).2.1, (hall m hm).2.2⟩) hW
+
+/-! ### the client's view of a reply body -/
+
+theorem unbe32_be32 (n : Nat) (h : n < 4294967296) : unbe32 (be32 n) = some n := by
+  simp only [be32, unbe32]
+  rw [be32_size n h]
+
+theorem deframe_step (fuel : Nat) (flag : UInt8) (p rest : Bytes) (h : p.length < 4294967296) :
+    deframe (fuel + 1) (frame flag p ++ rest) = (deframe fuel rest).map (fun fs => (flag, p) :: fs) := by
+  have e : frame flag p ++ rest = flag :: (be32 p.length ++ (p ++ rest)) := by simp [frame]
+  rw [e, deframe]
+  have h4 : (be32 p.length ++ (p ++ rest)).take 4 = be32 p.length := by simp [be32]
+  have hd4 : (be32 p.length ++ (p ++ rest)).drop 4 = p ++ rest := by simp [be32]
+  simp only [h4, hd4, unbe32_be32 _ h]
+  simp
+  intro hh; omega
+
+/-- **frame stream law**: frames written one after the other split back into exactly those
+frames (flag and payload), for payloads below 2^32 bytes. -/
+theorem deframe_frames (fs : List (UInt8 × Bytes)) (h : ∀ f ∈ fs, f.2.length < 4294967296) :
+    deframe fs.length (fs.map (fun f => frame f.1 f.2)).flatten = some fs := by
+  induction fs with
+  | nil => simp [deframe]
+  | cons f fs ih =>
+    have hf := h f (by simp)
+    have ih' := ih (fun g hg => h g (by simp [hg]))
+    simp only [List.map_cons, List.flatten_cons, List.length_cons]
+    rw [deframe_step _ _ _ _ hf, ih']; rfl
+
+/-- **gRPC-web reply**: the body written for the handler's replies followed by the trailer
+frame (flag 0x80) splits, on the client, into exactly those replies in order and then the
+trailer block that carries the final status. -/
+theorem web_reply_sequence (maxSend : Nat) (ms : List Bytes) (trailer : Bytes)
+    (hall : ∀ m ∈ ms, m.length ≤ maxSend ∧ m.length < 4294967296) (ht : trailer.length < 4294967296) :
+    deframe (ms.length + 1) (grpcSendAll maxSend ms ++ frame 128 trailer)
+      = some (ms.map (fun m => (0, m)) ++ [(128, trailer)]) := by
+  rw [grpcSendAll_within maxSend ms (fun m hm => (hall m hm).1)]
+  have := deframe_frames (ms.map (fun m => ((0 : UInt8), m)) ++ [(128, trailer)]) (by
+    intro f hf
+    simp only [List.mem_append, List.mem_map, List.mem_singleton] at hf
+    rcases hf with ⟨m, hm, rfl⟩ | rfl
+    · exact (hall m hm).2
+    · exact ht)
+  simpa [List.map_append, List.flatten_append, Function.comp_def] using this
+
 /-! ### sending -/
 
 /-- a reply within the send limit is framed (never refused on size grounds), one over it is
@@ -264,6 +357,54 @@ theorem http_recv_sequence_proto (limit : Nat) (ms : List Bytes) :
       ((ms.map protoWriteNext).flatten) hE (by simpa using hW) hm.1 hm.2
     have := ih spares.tail s' hE' (fun x hx => hall x (by simp [hx])) hW'
     simp only [List.length_cons, recvAll, recvMsgHttp, h, this, List.map_cons, List.cons_append]
+
+/-- a length-delimited protobuf stream that ends inside a message: an error, not a message
+and not a clean end. -/
+theorem readMsg_proto_truncated (limit spare : Nat) (s : HS) (m : Bytes) (k : Nat)
+    (hE : s.rEOF = false) (hk1 : 0 < k) (hk2 : k < (protoWriteNext m).length)
+    (hW : s.rbuf ++ s.env.data = (protoWriteNext m).take k)
+    (hlim : m.length ≤ limit) (hint : m.length ≤ maxInt) :
+    ∃ x s', readMsg .proto limit spare s = (.err x, s') := by
+  obtain ⟨dst, err, e', h, hne⟩ := proto_truncated s.env ⟨s.rbuf, spare⟩ limit m k hk1 hk2 hW hlim hint
+  unfold readMsg
+  simp only [hE, Bool.false_eq_true, if_false, readNextK, h, finishRead]
+  have h0 : ¬ (0 > dst.data.length) := by omega
+  simp only [h0, if_false]
+  cases err with
+  | eof =>
+    have := hne rfl
+    have h1 : ¬ ((0:Nat) > 0) := by omega
+    simp only [h1, if_false, this, if_true]
+    exact ⟨_, _, rfl⟩
+  | unexpectedEOF => exact ⟨_, _, rfl⟩
+  | tooLarge => exact ⟨_, _, rfl⟩
+  | parse => exact ⟨_, _, rfl⟩
+  | unbalanced => exact ⟨_, _, rfl⟩
+  | other => exact ⟨_, _, rfl⟩
+
+/-- **HTTP truncation law** (length-delimited protobuf): a body that ends in the middle of a
+message yields the preceding complete messages, in order, followed by an error — never a
+fabricated or partial message, never a clean end — for every fragmentation of the body. -/
+theorem http_recv_truncated_proto (limit : Nat) (m : Bytes) (k : Nat)
+    (hk1 : 0 < k) (hk2 : k < (protoWriteNext m).length)
+    (hlim : m.length ≤ limit) (hint : m.length ≤ maxInt) (ms : List Bytes) :
+    ∀ (spares : List Nat) (s : HS), s.rEOF = false →
+    (∀ m ∈ ms, m.length ≤ limit ∧ m.length ≤ maxInt) →
+    s.rbuf ++ s.env.data = (ms.map protoWriteNext).flatten ++ (protoWriteNext m).take k →
+    ∃ x, recvAll .proto limit (ms.length + 1) spares s = ms.map .msg ++ [.err x] := by
+  induction ms with
+  | nil =>
+    intro spares s hE _ hW
+    obtain ⟨x, s', h⟩ := readMsg_proto_truncated limit (spares.headD 0) s m k hE hk1 hk2
+      (by simpa using hW) hlim hint
+    exact ⟨x, by simp only [List.length_nil, Nat.zero_add, recvAll, recvMsgHttp, h]; simp⟩
+  | cons m0 ms ih =>
+    intro spares s hE hall hW
+    have hm := hall m0 (by simp)
+    obtain ⟨s', h, hE', hW', _⟩ := readMsg_proto_frame limit (spares.headD 0) s m0
+      ((ms.map protoWriteNext).flatten ++ (protoWriteNext m).take k) hE (by simpa using hW) hm.1 hm.2
+    obtain ⟨x, hx⟩ := ih spares.tail s' hE' (fun y hy => hall y (by simp [hy])) hW'
+    exact ⟨x, by simp only [List.length_cons, recvAll, recvMsgHttp, h, hx, List.map_cons, List.cons_append]⟩
 
 theorem readMsg_json_frame (limit spare : Nat) (s : HS) (m rest : Bytes)
     (hE : s.rEOF = false) (hW : s.rbuf ++ s.env.data = jsonWriteNext m ++ rest)
@@ -334,6 +475,50 @@ theorem http_recv_sequence_json (limit : Nat) (hl : 0 < limit) (ms : List Bytes)
       ((ms.map jsonWriteNext).flatten) hE (by simpa using hW) hm.2 hm.1
     have := ih spares.tail s' hE' (fun x hx => hall x (by simp [hx])) hW'
     simp only [List.length_cons, recvAll, recvMsgHttp, h, this, List.map_cons, List.cons_append]
+
+/-- a JSON stream that ends inside an object: an error, not a message and not a clean end. -/
+theorem readMsg_json_truncated (limit spare : Nat) (s : HS) (m : Bytes) (k : Nat)
+    (hE : s.rEOF = false) (hm : JsonFrame m) (hk1 : 0 < k) (hk2 : k < m.length)
+    (hW : s.rbuf ++ s.env.data = (jsonWriteNext m).take k) :
+    ∃ x s', readMsg .json limit spare s = (.err x, s') := by
+  obtain ⟨dst, err, e', h, hne⟩ := json_truncated s.env ⟨s.rbuf, spare⟩ limit m k hm hk2 hW
+  unfold readMsg
+  simp only [hE, Bool.false_eq_true, if_false, readNextK, h, finishRead]
+  have h0 : ¬ (0 > dst.data.length) := by omega
+  simp only [h0, if_false]
+  cases err with
+  | eof =>
+    have hl : 0 < dst.data.length := by rw [hne rfl]; simp; omega
+    have h1 : ¬ ((0:Nat) > 0) := by omega
+    simp only [h1, if_false, hl, if_true]
+    exact ⟨_, _, rfl⟩
+  | unexpectedEOF => exact ⟨_, _, rfl⟩
+  | tooLarge => exact ⟨_, _, rfl⟩
+  | parse => exact ⟨_, _, rfl⟩
+  | unbalanced => exact ⟨_, _, rfl⟩
+  | other => exact ⟨_, _, rfl⟩
+
+/-- **HTTP truncation law** (JSON): complete objects followed by one cut short are delivered
+as exactly the complete messages followed by an error. -/
+theorem http_recv_truncated_json (limit : Nat) (m : Bytes) (k : Nat)
+    (hm : JsonFrame m) (hk1 : 0 < k) (hk2 : k < m.length) (ms : List Bytes) :
+    ∀ (spares : List Nat) (s : HS), s.rEOF = false →
+    (∀ m ∈ ms, m.length ≤ limit ∧ JsonFrame m) →
+    s.rbuf ++ s.env.data = (ms.map jsonWriteNext).flatten ++ (jsonWriteNext m).take k →
+    ∃ x, recvAll .json limit (ms.length + 1) spares s = ms.map .msg ++ [.err x] := by
+  induction ms with
+  | nil =>
+    intro spares s hE _ hW
+    obtain ⟨x, s', h⟩ := readMsg_json_truncated limit (spares.headD 0) s m k hE hm hk1 hk2
+      (by simpa using hW)
+    exact ⟨x, by simp only [List.length_nil, Nat.zero_add, recvAll, recvMsgHttp, h]; simp⟩
+  | cons m0 ms ih =>
+    intro spares s hE hall hW
+    have hm0 := hall m0 (by simp)
+    obtain ⟨s', h, hE', hW', _⟩ := readMsg_json_frame limit (spares.headD 0) s m0
+      ((ms.map jsonWriteNext).flatten ++ (jsonWriteNext m).take k) hE (by simpa using hW) hm0.2 hm0.1
+    obtain ⟨x, hx⟩ := ih spares.tail s' hE' (fun y hy => hall y (by simp [hy])) hW'
+    exact ⟨x, by simp only [List.length_cons, recvAll, recvMsgHttp, h, hx, List.map_cons, List.cons_append]⟩
 
 theorem finishRead_safe (s1 : HS) (r : Result) (e' : Env) (limit : Nat)
     (h1 : r.n ≤ r.dst.data.length) (h2 : r.n ≤ limit) :
